@@ -28,6 +28,7 @@ pub fn catch<R>(f: impl FnOnce() -> R) -> Result<R, String> {
 
 pub struct Out {
     w: std::io::BufWriter<std::fs::File>,
+    cur: String,
     pub lines: u64,
 }
 
@@ -35,6 +36,7 @@ impl Out {
     pub fn create(path: &str) -> Out {
         Out {
             w: std::io::BufWriter::with_capacity(1 << 20, std::fs::File::create(path).expect("create output")),
+            cur: format!("{}.cur", path),
             lines: 0,
         }
     }
@@ -43,7 +45,15 @@ impl Out {
         self.w.write_all(b"\n").unwrap();
         self.lines += 1;
     }
+    /// called before a script runs: everything recorded so far is on disk and the
+    /// id of the script about to run is in the side file, so that a crash of the
+    /// code under test (abort, segfault) can be attributed to that script
+    pub fn begin_script(&mut self, tid: &serde_json::Value) {
+        self.w.flush().unwrap();
+        let _ = std::fs::write(&self.cur, tid.to_string());
+    }
     pub fn finish(mut self) {
+        let _ = std::fs::remove_file(&self.cur);
         self.w.flush().unwrap();
     }
 }
